@@ -34,6 +34,12 @@ Proof.
   intros ->. discriminate.
 Qed.
 
+(** the translator resolves, for each shipped graph, attachment + one `nll_regul_<v>_ind` per individual latent variable + the summed
+    regularity: [reads_reg rs v], v < number of individual latent variables, is an entry strictly between the first and the last *)
+Lemma shipped_reads_shape :
+  forallb (fun p => Nat.eqb (length (snd p)) (length (sg_ind_latents (fst p)) + 2)) (combine shipped shipped_reads) = true.
+Proof. vm_compute; reflexivity. Qed.
+
 (** The corollary: for EVERY shipped graph, with the three oracles = the evaluation of the nodes `sample` reads *)
 Theorem chain_local_shipped : forall s rs, In (s, rs) (combine shipped shipped_reads) ->
   forall (A : Type) (add mul : A -> A -> A) (ofQ : Q -> A) (decide : A -> A -> A -> A -> A -> A -> bool)
